@@ -323,10 +323,10 @@ def build_chain(fsmod, worlds, members, rng):
     got = [(s, p) for s, p in chain.systems]
     want = [(worlds[wi].fs[kind], pf) for kind, wi, pf in members]
     ok = len(got) == len(want) and all(a[0] is b[0] and a[1] == b[1] for a, b in zip(got, want))
-    return chain, ok
+    return chain, ok, seq
 
 
-def check_chain(ctx, fsmod, worlds, members, chain, queries, folders, desc):
+def check_chain(ctx, fsmod, worlds, members, chain, queries, folders, desc, build=None):
     """Direct statement for chains over V/Z/P members whose prefixes are normalised folder names (any case, either slash,
     optional trailing separator)."""
     if any(k == 'R' for k, _, _ in members):
@@ -352,7 +352,7 @@ def check_chain(ctx, fsmod, worlds, members, chain, queries, folders, desc):
         got = r[1] if isinstance(r, list) else None
         if got != want:
             ctx.witness('chain-lookup', f'chain {desc}: looking up {q!r} gives {short(r)}, expected content id {want} (first member that has it)',
-                        {'chain': desc, 'query': q})
+                        {'chain': desc, 'query': q, 'build': build})
     for d in folders:
         fd = norm_folder(d).casefold()
         want = {}
@@ -370,7 +370,7 @@ def check_chain(ctx, fsmod, worlds, members, chain, queries, folders, desc):
                 if ctx.hist['chain:walk:open-finding-prefix-case'] > 3:
                     continue      # keep room for other witnesses
             ctx.witness('chain-walk-prefix-case' if prefix_case_differs else 'chain-walk', f'chain {desc}: walk_folder({d!r}) lists {got}, expected each name once, relative to the member prefix, '
-                        f'with the first member\'s content: {sorted(want.items())}', {'chain': desc, 'folder': d})
+                        f'with the first member\'s content: {sorted(want.items())}', {'chain': desc, 'folder': d, 'build': build})
 
 
 # ----------------------------------------------------------------------------------------- main flow
@@ -445,7 +445,7 @@ def run_all(ctx, drv, fsmod):
             cq = queries[:: max(1, len(queries) // 60)]
             cd = folders[:: max(1, len(folders) // 40)]
             for members in chains:
-                chain, ok = build_chain(fsmod, worlds, members, rng)
+                chain, ok, seq = build_chain(fsmod, worlds, members, rng)
                 desc = [[k, worlds[wi].names, pf] for k, wi, pf in members]
                 if not ok:
                     ctx.disagree({'chain': desc}, [repr(s) for s in chain.systems], 'insertion order model', 'add_sys(priority=...) order')
@@ -471,7 +471,8 @@ def run_all(ctx, drv, fsmod):
                             r_ = n[len(p) + 1:] if p else n
                             rel_q += [r_, r_.swapcase(), r_.replace('/', '\\')]
                             rel_d += folders_of([r_])
-                check_chain(ctx, fsmod, worlds, members, chain, list(dict.fromkeys(rel_q + ['nope.txt'])), list(dict.fromkeys(rel_d)), desc)
+                check_chain(ctx, fsmod, worlds, members, chain, list(dict.fromkeys(rel_q + ['nope.txt'])), list(dict.fromkeys(rel_d)), desc,
+                            build=[[i, bool(pr)] for i, pr in seq])
                 ctx.case({'chain': desc}, nontrivial=True, sample_every=97)
             reqs.append({'op': 'fs', 'fold': fold_table(allnames + queries + folders + [pf for m in chains for _, _, pf in m]),
                          'cwd': codes(base), 'cfg': None,
@@ -613,7 +614,13 @@ def _replay_input(fsmod, inp, verbose=False):
                 worlds.append(World(fsmod, base, len(worlds), names, list(range(nid, nid + len(names))), k == 'P'))
                 nid += len(names)
                 members.append((k, len(worlds) - 1, pf))
-            chain = fsmod.FileSystemChain(*[(worlds[wi].fs[k], pf) for k, wi, pf in members])
+            if inp.get('build'):
+                chain = fsmod.FileSystemChain()
+                for i, prio in inp['build']:      # the add_sys calls (member index of the intended order, priority flag)
+                    k, wi, pf = members[i]
+                    chain.add_sys(worlds[wi].fs[k], pf, priority=prio)
+            else:
+                chain = fsmod.FileSystemChain(*[(worlds[wi].fs[k], pf) for k, wi, pf in members])
             check_chain(c, fsmod, worlds, members, chain, [inp['query']] if 'query' in inp else [], [inp['folder']] if 'folder' in inp else [], inp['chain'])
             for w in worlds:
                 w.close()
@@ -640,13 +647,15 @@ def replay_known(ctx, finding):
     return not _replay_input(fsmod, finding['witness'])
 
 
-LEVEL_TEXT = ("Theorems proved in Lean over Python-dict semantics for every file set, query and folder: C19_agree (Virtual, Zip and VPK "
-              "lookups return the same file for every query that is a case/slash spelling of a normalised name), C19_walk (after the fixes "
-              "each backend's walk_folder lists exactly the stored names inside the folder, '' meaning all), C19_walk_sound (every listed "
-              "name looks up to that file), C19_chain (a chain returns the first member that has prefix/name), C19_dedup (the de-duplicated "
-              "walk has no two entries with the same folded path and keeps first occurrences). C19_gen_ok re-checks on every run that the "
-              "source's three walk_folder methods have the fixed shape. Model tied to the code by differential runs on file sets "
-              "materialised as dict, zip, VPK and directory.")
+LEVEL_TEXT = ("Theorems proved in Lean over Python-dict semantics for every file set, query and folder: C19_same_dict / C19_agree (Virtual, Zip "
+              "and VPK lookups return the same file for every query that is a case/slash spelling of a normalised name), C19_agree_raw / "
+              "C19_agree_all (the directory backend finds every exactly-spelled stored name, and all four return the same file), C19_walk_zip / "
+              "C19_walk_virtual / C19_walk_vpk (after the fixes walk_folder lists exactly the stored names inside the folder, '' meaning all), "
+              "C19_walk_sound_* (every listed name looks up to that file), C19_chain / C19_chain_first / C19_priority (a chain returns the first "
+              "member that has prefix/name; priority insertion wins), C19_dedup (the de-duplicated walk is a sub-list with no two paths equal "
+              "up to case and represents every path), C19_walk_bugs (the three original walk defects as model facts). C19_gen_ok re-checks on "
+              "every run that the source's three walk_folder methods have the fixed shape. Model tied to the code by differential runs on file "
+              "sets materialised as dict, zip, VPK and directory. Open: chain walk with a member prefix in another case (known finding).")
 LEVEL_NOTE = ("Trusted: Lean kernel + propext/Classical.choice/Quot.sound; tools/gen_fswalk.py, tools/gen_fsys.py; the correspondence harness; "
               "zipfile/srctools.vpk as containers. Windows path rules and VPK's ext/dir grouping order are not modelled.")
 TECHNIQUE = "Lean 4 proofs over a Python-dict model of four backends + translator for the folder-matching shape + differential correspondence on materialised file sets"
